@@ -1,13 +1,22 @@
 (* C07 — source round trip is observationally equivalent or refused.
-   NO theorem decides this property.  The round trip is source -> graph ->
-   restructured graph -> source.  The middle leg is covered per instance by
-   C01 (path equivalence) and C05 (payloads untouched); the census of the
-   regenerated tree by C10; the two outer legs (front end, code generation)
-   are decided by path-exhaustive differential execution only.  The two
-   statements below are the Coq facts the check relies on, restated. *)
+   The round trip is source -> graph -> restructured graph -> source.
+   * first leg (front end): C07_front_leg — for every program of the control
+     skeleton the pruned graph means what the source means (universal, from C08);
+   * graph -> regenerated tree (restructuring and code generation together):
+     C07_back_leg — per instance, a verified checker: if it accepts, the
+     generated tree, laid out as a walk (Model/BackSem.v: the reading of the
+     generated Python), passes through the original blocks exactly as the input
+     graph does under EVERY decision list;
+   * the middle leg alone: C01 (path equivalence) per instance; census: C10.
+   Not proved: that the layout of BackSem.v is what CPython does with the
+   unparsed text (modelled), and/or operands and for-desugaring (known
+   findings), refusals being the only other outcome (decided by running the
+   pipeline), diverging runs.  Path-exhaustive differential execution against
+   CPython covers those on generated programs. *)
 From Coq Require Import List ZArith Permutation.
 Import ListNotations.
-From V Require Import Valid.Hier Valid.Walk Valid.FlatRegion Model.Prune.
+From V Require Import Valid.Hier Valid.Walk Valid.FlatRegion Model.Prune Model.Src Model.SrcPrune Model.Back Model.BackSem.
+From V Require Props.C08.
 
 Theorem C07_middle_leg :
   forall rw g h, c01_check rw g h = true -> PathEq rw g h.
@@ -18,3 +27,28 @@ Theorem C07_census :
   forall expected got, census_check expected got = true -> Permutation expected got.
 Proof. exact census_check_sound. Qed.
 Print Assumptions C07_census.
+
+Theorem C07_front_leg :
+  forall (state : Type) (act : Z -> state -> option state) (test : Z -> state -> option (bool * state))
+         (body : stmts) (fuel : nat) (s : state) (o : outcome state) (G' : list blk) (e' : Z),
+    exec state act test fuel body s = o ->
+    (exists a s', o = ORet a s') \/ (exists a, o = ORaise a) ->
+    sprune (build body) 0 = Some (G', e') ->
+    exists fuel', run state act test G' fuel' e' s = o.
+Proof. exact Props.C08.C08_pruned_graph_means_source. Qed.
+Print Assumptions C07_front_leg.
+
+Theorem C07_back_leg :
+  forall g info tree, back_check g info tree = true ->
+    exists en start hT, entry_of g info = Some en /\
+      tree_graph (contract g info) info tree = Some (start, hT) /\
+      NoDup (names hT) /\
+      exists e0,
+        SRun hT (resolve_flat hT) false start [] (Reached en e0) /\
+        forall ds, WTrace hT (resolve_flat hT) false en e0 ds
+                          (fst (otrace (contract g info) en ds)) (snd (otrace (contract g info) en ds)).
+Proof.
+  intros g info tree H. destruct (back_check_sound g info tree H) as [en [start [hT [A [B [C D]]]]]].
+  exists en, start, hT. auto.
+Qed.
+Print Assumptions C07_back_leg.
